@@ -374,6 +374,29 @@ def run(repo: Repo, rep: Report, tier: str) -> None:
         rep.ok("R9.10", sub910, "direct generation creates no ancestor __init__.py files: nothing to mirror", gen.loc(sw))
     elif il_diff:
         rep.ok("R9.10", sub910, f"direct generation has {len(il_direct)} ancestor-__init__ loop(s), compare-only generation {len(il_diff)} below the temporary root", gen.loc(il_diff[0]))
+        # ... for the same directories: a loop of one branch that runs only under a condition on where the core lives relative to the output
+        # package has no counterpart when the other branch walks unconditionally (core nested below the client: `myapi.shared.core`)
+        def _layout_guards(loop: ast.AST, body) -> List[ast.AST]:
+            out, q = [], parent(loop)
+            while q is not None and not any(q is st for st in body):
+                if isinstance(q, ast.If) and sum(1 for x in ast.walk(q.test) if isinstance(x, ast.Name) and ("core" in x.id or "out" in x.id)) >= 2:
+                    out.append(q.test)
+                q = parent(q)
+            if isinstance(q, ast.If) and sum(1 for x in ast.walk(q.test) if isinstance(x, ast.Name) and ("core" in x.id or "out" in x.id)) >= 2:
+                out.append(q.test)
+            return out
+
+        g_direct = [g for lp_ in il_direct for g in _layout_guards(lp_, direct_body)]
+        g_diff = [g for lp_ in il_diff for g in _layout_guards(lp_, diff_body)]
+        sub910b = f"{gen.module.relpath}:generate ancestor __init__.py files are created for the same directories in both branches"
+        if bool(g_direct) != bool(g_diff):
+            g0 = (g_direct or g_diff)[0]
+            rep.violation("R9.10", sub910b, f"{gen.fq}|init-loops-guarded-differently|{norm(g0)[:50]}",
+                          f"{'direct' if g_direct else 'compare-only'} generation walks up from the core only when `{norm(g0)[:60]}`, the other branch always: for a core nested "
+                          "below the client package (`myapi.shared.core`) the intermediate `shared/__init__.py` exists in one tree only and an immediate re-run of an unchanged "
+                          "client fails with 'Missing file in existing output'", gen.loc(g0))
+        else:
+            rep.ok("R9.10", sub910b, "neither branch makes the walk depend on where the core lives" if not g_direct else "both branches apply a layout condition", gen.loc(il_diff[0]))
     else:
         rep.violation("R9.10", sub910, f"{gen.fq}|init-structure-not-mirrored",
                       "direct generation creates __init__.py in every ancestor package of the output, compare-only generation does not: in the temporary tree `apis` is not a "
